@@ -220,6 +220,10 @@ type wrapPolicy struct {
 }
 
 func (wp *wrapPolicy) Select(pool proxy.HostPool, r *http.Request) *proxy.UpstreamHost {
+	if rr := relayCur; rr != nil && !rr.cleanup {
+		// (the relay rig's retry surface: the same scheduling point)
+		rr.c.Park(fmt.Sprintf("hook.select/r%s#%d", r.Header.Get("X-Req"), rr.nextSel(r.Header.Get("X-Req"))), "req:"+r.Header.Get("X-Req"))
+	}
 	rig := poolCur
 	if rig != nil && !rig.cleanup {
 		// several requests wake from their try_interval sleep at the same simulated
